@@ -59,6 +59,21 @@ Theorem C20_unit_direction : forall el t e Ew, a el t <> 0 -> eL2 el t e < 1 ->
 Proof. exact cosu_sinu_unit. Qed.
 Print Assumptions C20_unit_direction.
 
+(* vis-viva: before the short-period corrections the report's rates and radius satisfy
+   v^2 / 2 - mu / r = - mu / (2 a) exactly (mu = ke^2), for every elements / time / Ew with eL^2 < 1; the
+   corrections that separate the returned rates from these are bounded by k2 n / pL and 3 k2 n / pL.  (That the
+   returned energy is within 1 % of - mu / 2a then needs bounds on r, pL and a; it is sampled in checks/c20.py.) *)
+Theorem C20_vis_viva : forall el t e Ew, 0 < a el t -> eL2 el t e < 1 ->
+  (rdot el t e Ew ^ 2 + rfdot el t e Ew ^ 2) / 2 - ke ^ 2 / r el t e Ew = - ke ^ 2 / (2 * a el t).
+Proof. exact vis_viva. Qed.
+Print Assumptions C20_vis_viva.
+
+Theorem C20_rate_corrections : forall el t e Ew, 0 < a el t -> eL2 el t e < 1 ->
+  Rabs (rdotk el t e Ew - rdot el t e Ew) <= k2 * Rabs (n el t) / pL el t e /\
+  Rabs (rfdotk el t e Ew - rfdot el t e Ew) <= 3 * (k2 * Rabs (n el t) / pL el t e).
+Proof. intros el t e Ew Ha HeL. split; [apply rdotk_band|apply rfdotk_band]; assumption. Qed.
+Print Assumptions C20_rate_corrections.
+
 (* inclination and node of the returned plane, e0 > 1e-4 (leaf 1): eqinc / ascn are what C20_plane's state is
    built from (exit_ok is the conclusion of C01_exit_<j>) *)
 Theorem C20_plane_inclination : forall e0 i r w m n b ts j Ew radius theta eqinc ascn rdk rfdk smjaxs,
